@@ -26,7 +26,7 @@
       detection is proved order-independent); that SortChanges emits a permutation respecting
       dependsOn is C04's theorem, and
       "the resulting schema is the same" is checked on the real SQLite engine by the harness. *)
-From Coq Require Import List Bool Arith NArith Permutation String.
+From Coq Require Import List Bool Arith NArith Permutation String Relations.
 From Coq Require Sorting.Sorted.
 From Atlas Require Import Base.Bytes Plan.SortModel Dir.DirModel.
 From Atlas Require Import Det.Census Det.OrderModel Det.OrderIndep Det.SortMapCycle Det.CensusCovered gen.Gen_MapRanges.
@@ -356,7 +356,7 @@ Proof. vm_compute. split; reflexivity. Qed.
 Theorem C20_decl_order_cycle_detection : forall cs cs' : list change,
   Permutation cs cs' ->
   sortMap cs <> SMOut /\ (sortMap cs = SMCycle <-> sortMap cs' = SMCycle)
-  /\ (sortMap cs = SMCycle <-> exists a, Relations.clos_trans nat (edge (dependencies cs)) a a).
+  /\ (sortMap cs = SMCycle <-> exists a, clos_trans nat (edge (dependencies cs)) a a).
 Proof.
   exact (fun cs cs' P => conj (sortMap_never_out cs) (conj (sortMap_cycle_perm cs cs' P) (sortMap_cycle_iff cs))).
 Qed.
